@@ -37,7 +37,7 @@ def main():
     print('BASELINE', {p: c for p, c in base.items() if c != 0} or 'clean', flush=True)
     for sid in ids:
         patch = os.path.join(seeds, sid, 'patch.diff')
-        a = subprocess.run(['git', 'apply', '--directory', '.', patch], cwd=repo, capture_output=True, text=True)
+        a = subprocess.run(['git', 'apply', patch], cwd=repo, capture_output=True, text=True)
         if a.returncode != 0:
             print(sid, 'APPLY FAILED', a.stderr[-300:], flush=True); continue
         res = {}
@@ -54,7 +54,7 @@ def main():
                 res[p] = dict(exit=r.returncode, violations=len(lines), tags=sorted(set(tags)), nfi=sum('no-failing-input-found' in l for l in lines),
                               wall=round(time.time() - t, 1))
         finally:
-            subprocess.run(['git', 'apply', '-R', '--directory', '.', patch], cwd=repo, check=True)
+            subprocess.run(['git', 'apply', '-R', patch], cwd=repo, check=True)
         res['_baseline_alarms'] = [p for p, c in base.items() if c != 0]
         json.dump(res, open(os.path.join(seeds, sid, 'eval.json'), 'w'), indent=1)
         print(sid, 'CAUGHT-BY', [p for p in props if res[p]['exit'] != 0], {p: res[p]['tags'] for p in props if res[p]['exit'] != 0}, flush=True)
